@@ -14,7 +14,7 @@
 
 from typing import Any, List
 
-from sympy.logic import And, Or, false, true
+from sympy.logic import And, Not, Or, false, true
 
 from . import _eq, _neq
 from .qint import QintImp
@@ -59,6 +59,12 @@ class Qchar(str, Qtype):
         for x in zip(tleft[1], tcomp[1]):
             ex = And(ex, _eq(x[0], x[1]))
 
+        # The operands may have a different size (ie: ord(c) == 3): the surplus
+        # high bits of the longer one have to be zero
+        longer = tleft[1] if len(tleft[1]) > len(tcomp[1]) else tcomp[1]
+        for x in longer[min(len(tleft[1]), len(tcomp[1])) :]:
+            ex = And(ex, Not(x))
+
         return (bool, ex)
 
     @staticmethod
@@ -66,5 +72,9 @@ class Qchar(str, Qtype):
         ex = false
         for x in zip(tleft[1], tcomp[1]):
             ex = Or(ex, _neq(x[0], x[1]))
+
+        longer = tleft[1] if len(tleft[1]) > len(tcomp[1]) else tcomp[1]
+        for x in longer[min(len(tleft[1]), len(tcomp[1])) :]:
+            ex = Or(ex, x)
 
         return (bool, ex)
